@@ -155,11 +155,29 @@ theorem sat_processToken2 (hall : AllSpec (al := al)) (hd : AllDec) {token : Tok
         cases hm : ({ s1 with ignoreLf := false } : State).mode <;> first | rfl | exact absurd hm hmi
       rw [hmi']
       simp only [Bool.false_eq_true, if_false]
-      refine sat_parseError.bind ?_
-      intro _ s3 hq3
-      refine Sat.bind (Q := fun tb s4 => tb = none ∧ TI s4) (sat_pure ⟨rfl, ht2.of_qf hq3⟩) ?_
-      rintro tb s4 ⟨rfl, ht4⟩
-      exact hfin none s4 ht4 (fun t h => by cases h) (Or.inl (fun t h => by cases h))
+      refine sat_getS_bind ?_
+      have hrest : ∀ s3, TI s3 → Sat (parseError "DOCTYPE in body" >>= fun _ =>
+          (pure none : M (Option Token)) >>= fun tb => ptFinish tb) s3 (fun _ s' => TI s') := by
+        intro s3 ht3
+        refine sat_parseError.bind ?_
+        intro _ s4 hq4
+        refine Sat.bind (Q := fun tb s5 => tb = none ∧ TI s5) (sat_pure ⟨rfl, ht3.of_qf hq4⟩) ?_
+        rintro tb s5 ⟨rfl, ht5⟩
+        exact hfin none s5 ht5 (fun t h => by cases h) (Or.inl (fun t h => by cases h))
+      by_cases hmt : ({ s1 with ignoreLf := false } : State).mode = .inTableText
+      · have hmt' : (({ s1 with ignoreLf := false } : State).mode == Mode.inTableText) = true := by
+          rw [hmt]; rfl
+        rw [if_pos hmt']
+        refine (sat_flushPendingTableText ht2 hmt).bind ?_
+        rintro m s3 ⟨hi3, hs3⟩
+        refine sat_setMode.bind ?_
+        rintro _ s4 rfl
+        exact hrest _ ⟨hi3.withMode m, hs3.withMode m⟩
+      · have hmt' : (({ s1 with ignoreLf := false } : State).mode == Mode.inTableText) = false := by
+          cases hm : ({ s1 with ignoreLf := false } : State).mode <;> first | rfl | exact absurd hm hmt
+        rw [hmt']
+        simp only [Bool.false_eq_true, if_false]
+        exact hrest _ ht2
   | tag t =>
     refine Sat.bind (Q := fun tb s4 => tb = some (.tag t) ∧ s4 = { s1 with ignoreLf := false }) (sat_pure ⟨rfl, rfl⟩) ?_
     rintro tb s4 ⟨rfl, rfl⟩
